@@ -232,6 +232,8 @@ _p('C09', 'exploration',
 
 PROPS['C05'].parts.append(Part('registry', {'props': ['C05'], 'shape': 'specdyn'}, configs=[(C, 2), (PY, 2)], quick=4000, thorough=200000,
                                name='registry/C05/specs', timeout=40.0))
+PROPS['C05'].parts.append(Part('registry', {'props': ['C05'], 'shape': 'chain'}, configs=[(C, 2), (PY, 2)], quick=4000, thorough=200000,
+                               name='registry/C05/chains', timeout=40.0))
 
 
 _p('C14', 'fault_enumeration',
